@@ -57,3 +57,37 @@ func (p *Parser) VerifCachedLen() int {
 
 // VerifParserState returns the parser's state machine position.
 func (p *Parser) VerifParserState() int { return int(p.state) }
+
+// VerifCached returns the bytes the parser holds back for the next Parse call (nil when there is
+// no cache buffer). It aliases the live buffer: valid until the next call on the parser, must
+// not be written to.
+func (p *Parser) VerifCached() []byte {
+	if p.bytesCached == nil {
+		return nil
+	}
+	return *p.bytesCached
+}
+
+// VerifParserClosed reports whether the parser is in its closed state (CloseAndClean ran; it
+// leaves the released cache pointer in place and every later Parse is refused).
+func (p *Parser) VerifParserClosed() bool { return p.state == stateClose }
+
+// VerifPendingBody returns the body buffers of the message under assembly (request on the server
+// side, response on the client side); nil when there is none. The slices alias live buffers.
+func (p *Parser) VerifPendingBody() [][]byte {
+	var br *BodyReader
+	switch pr := p.Processor.(type) {
+	case *ServerProcessor:
+		if pr.request != nil && pr.request.Body != nil {
+			br, _ = pr.request.Body.(*BodyReader)
+		}
+	case *ClientProcessor:
+		if pr.response != nil && pr.response.Body != nil {
+			br, _ = pr.response.Body.(*BodyReader)
+		}
+	}
+	if br == nil {
+		return nil
+	}
+	return br.RawBodyBuffers()
+}
